@@ -35,8 +35,14 @@ public:
         ranges.push_back({line_begin, content.size()});
     }
 
-    source_location find(const std::size_t offset) const
+    source_location find(std::size_t offset) const
     {
+        assert(!ranges.empty());
+        // pugixml reports some errors (e.g. unexpected end of data) one past
+        // the end of the buffer and has no offsets at all (-1) for documents
+        // it had to convert from another encoding
+        offset = std::min(offset, ranges.back().end);
+
         const auto search = std::lower_bound(
             std::begin(ranges),
             std::end(ranges),
